@@ -492,6 +492,12 @@ func (w *World) genSubtree(rq *request, r *core.Rand) {
 		e = s + 1 + int64(r.Intn(int(n-s)))
 	case 3:
 		s, e = int64(r.Intn(int(n))), n+1+int64(r.Intn(5)) // beyond the tree
+		if r.Chance(1, 2) {
+			s = 0
+			if r.Chance(1, 3) {
+				e = int64(1) << uint(10+r.Intn(31))
+			}
+		}
 	case 4:
 		s = int64(r.Intn(int(n)))
 		e = s // empty
@@ -528,9 +534,20 @@ func (w *World) genSubtree(rq *request, r *core.Rand) {
 					rq.defect = "other-branch-hash"
 				}
 			}
+		case 3, 4:
+			// the checkpoint's own root hash offered as the hash of a part of the
+			// tree, without a proof
+			if s != 0 || e != n {
+				h = tlog.Hash(g.root(c.branch, n))
+				proof = nil
+				rq.defect = "root-hash-for-part"
+			}
 		}
 	} else {
 		rq.defect = "invalid-range"
+		if r.Chance(1, 2) {
+			h = tlog.Hash(g.root(c.branch, n))
+		}
 	}
 	rq.subHash = h
 	var b bytes.Buffer
